@@ -217,19 +217,8 @@ func ipOfAddr(a ma.Multiaddr) (ip nip, hasIP bool, relay bool) {
 		if n, ok := normalize(parseAny(parts[i+1])); ok {
 			return n, true, relay
 		}
-		if n, ok := normalize(parseIPLoose(parts[i+1])); ok {
-			return n, true, relay
-		}
 	}
 	return nip{}, false, relay
-}
-
-func parseIPLoose(s string) []byte {
-	ip := parseAny(s)
-	if ip != nil {
-		return ip
-	}
-	return nil
 }
 
 type connEvent struct {
